@@ -1,5 +1,6 @@
 """C02 - trees survive a write/read round trip through Newick, NEXUS and NeXML."""
 import io
+import re
 import itertools
 import json
 
@@ -32,13 +33,17 @@ EXPLANATION = ("Theorems (Props/C02.lean, all about the definitions drv_c02 runs
                "newick_list_roundtrip(_trees): several statements per text read into a pre-filled namespace; rooting_roundtrip, weight_absent, "
                "weight_roundtrip (incl. fractions); nexus_statements_roundtrip_partial and nexus_translate_roundtrip_partial + resolve_key: the TREE "
                "statements of a NEXUS block under the NEXUS symbol mapper (label before number, TRANSLATE token before label) - partial because "
-               "the block grammar around the statements is not modelled. NEXUS block grammar and NeXML: real round-trip oracle only.")
+               "the block grammar around the statements is not modelled; nexus_translate_roundtrip: end to end on the original trees (labels -> "
+               "tokens by the writer's table, tokens -> labels by the reader's); taxlabels_tokens: the TAXLABELS list the writer emits tokenizes "
+               "back to the namespace labels in order; newick_roundtrip_tree_undefined. NEXUS block grammar (keywords, TRANSLATE statement text, "
+               "TREE name =) and NeXML: no model and no theorem - real round-trip oracle only; float <-> text is trusted.")
 
 SCHEMAS = ("newick", "nexus", "nexml")
 NONASCII = u"éÉßñλЖж"        # includes the case pairs e-acute / E-acute and ZHE / zhe (each has a one-character str.lower())
 PRINTABLE = [chr(i) for i in range(0x20, 0x7f)] + ["\t"] + list(NONASCII)
 TABLE_CHARS = list("(){}[],;:=\\\"'`+-*/<>&_ \t")
 PLAIN = list("abcXYZ019")
+DEFAULT_WEIGHT = 1.0   # handed to the reader explicitly (default_tree_weight=) whenever weights are stored
 CONSISTENT = [(False, False, False), (True, False, False), (True, False, True), (True, True, True)]  # (preserve_spaces, unquoted_underscores, preserve_underscores)
 
 
@@ -418,7 +423,7 @@ def canon_model(line, stw):
             tree = node()
             wv = None
             if stw:
-                wv = 1.0 if w == "-" else _weight_value(unhex6(w))
+                wv = DEFAULT_WEIGHT if w == "-" else _weight_value(unhex6(w))
                 wv = float(wv).hex()
             trees.append([{"R": True, "U": False, "N": None}[r], wv, tree])
         return [ns, trees]
@@ -473,6 +478,8 @@ def run_roundtrip(ctx, dendropy, case, pending):
     try:
         with time_limit(20):
             kw = dict(ropts)
+            if kw.get("store_tree_weights"):
+                kw["default_tree_weight"] = DEFAULT_WEIGHT
             if case.get("into") == "source":
                 kw["taxon_namespace"] = tl.taxon_namespace
             if single:
@@ -507,41 +514,72 @@ def run_roundtrip(ctx, dendropy, case, pending):
             pending.append((rt_line(wopts, ropts, case["trees"][0]), ("rt", case, stw), "ERR" if tl2 is None else canon_impl(tl2, stw)))
     elif schema == "nexus":
         lines = text.split("\n")
-        stmts = [l.split(" = ", 1)[1] for l in lines if l.startswith("    TREE ") and " = " in l]
+        stmts = [l.split(" = ", 1)[1] for l in lines if l.lstrip().upper().startswith("TREE ") and " = " in l]
         token_of, tokmap = None, ()
         if wopts.get("translate_tree_taxa"):
             token_of = {lab: str(i + 1) for i, lab in enumerate(case["labels"])}
             tokmap = [(token_of[lab], lab) for lab in case["labels"]]
+        pu = 1 if ropts.get("preserve_underscores") else 0
         if len(stmts) == len(case["trees"]):
             for k, t in enumerate(case["trees"]):
-                pending.append((write_line(wopts, t, token_of), ("write-stmt", case, k), stmts[k]))
+                pending.append((write_line(wopts, t, token_of), ("write-stmt", case, pu), stmts[k]))
             body = "\n".join(stmts) + "\n"
             expect = "ERR"
             if tl2 is not None:
                 expect = canon_impl(tl2, stw)
             pending.append((parse_line(ropts, body, ns=case["labels"], tokmap=tokmap, numbers=True), ("parse-nexus", case, stw), expect))
-        # TAXLABELS lines = escape_nexus_token with the default protect class
-        try:
-            i0 = lines.index("    TAXLABELS")
-            for lab, l in zip(case["labels"], lines[i0 + 1:]):
-                pending.append(("escape %d %d d %s" % (1 if wopts.get("preserve_spaces") else 0, 0 if wopts.get("unquoted_underscores") else 1,
-                                                       hex6(lab)), ("taxlabel", case, lab), hex6(l[8:])))
-        except ValueError:
-            pass
+        else:
+            ctx.count("nexus_layout_not_recognised")
+            ctx.note("NEXUS TREE statements not found where expected: the model comparison of this case was skipped")
+        # TAXLABELS list: (i) the model's text for it and the library's tokenize alike; (ii) its tokens are the labels, in order
+        def find_ci(word, start=0):
+            m_ = re.compile(re.escape(word), re.I).search(text, max(start, 0))
+            return -1 if m_ is None else m_.start()
+        i0 = find_ci("TAXLABELS")
+        i1 = find_ci("\nEND;", i0)
+        if i0 >= 0 and i1 > i0:
+            tl_body = text[i0 + len("TAXLABELS"):i1] + "\n"
+            pending.append(("taxlabels %d %d %s" % (1 if wopts.get("preserve_spaces") else 0, 1 if wopts.get("unquoted_underscores") else 0,
+                                                    ",".join(hex6(x) for x in case["labels"]) or "-"), ("taxlabels", case, pu), tl_body))
+            pending.append(("tokens %d %s" % (pu, hex6(tl_body)), ("token-texts", case, None), [hex6(x) for x in case["labels"]] + [hex6(";")]))
+        else:
+            ctx.count("nexus_layout_not_recognised")
+        # TRANSLATE statement: its tokens are `token label , token label , ... ;` for the table the writer was given
+        if tokmap:
+            j0 = find_ci("TRANSLATE")
+            j1 = find_ci("\n    TREE ", j0 + 9)
+            if j0 >= 0 and j1 > j0:
+                tr_body = text[j0 + len("TRANSLATE"):j1]
+                exp = []
+                for n, (tok, lab) in enumerate(tokmap):
+                    exp.extend([hex6(tok), hex6(lab)] + ([hex6(",")] if n + 1 < len(tokmap) else []))
+                pending.append(("tokens %d %s" % (pu, hex6(tr_body)), ("token-texts", case, None), exp + [hex6(";")]))
+            else:
+                ctx.count("nexus_layout_not_recognised")
+
+
+def _tok_texts(m):
+    """token texts (hex) of a model `tokens` answer, comments and the EOF flag dropped"""
+    return [t[2:] for t in m.split(" ") if t[:2] in ("P:", "Q:")]
+
+
+def _tok_norm(m):
+    """a model `tokens` answer without the final EOF flag (trailing white space is immaterial)"""
+    parts = m.split(" ")
+    return " ".join(parts[:-1] if parts and parts[-1].startswith("EOF") else parts)
 
 
 def flush(ctx, pending):
+    """first stage: one driver line per entry; second stage: texts written by the model and by the library are compared as TOKEN
+    STREAMS of the model tokenizer (white-space layout is not part of the property), not byte for byte"""
     lines = [p[0] for p in pending if p[0] is not None]
     outs = iter(ctx.ask(lines))
     acc = []
+    stage2 = []      # (op, case, pu, impl_text, model_text)
     for line, (op, case, extra), impl in pending:
         if line is None:
-            # write-join: the concatenation of the model's statements is the text as_string produced
             if all(a is not None for a in acc):
-                ctx.compared()
-                got = "".join(acc)
-                if got != impl:
-                    ctx.disagree("write", case, impl, got)
+                stage2.append(("write", case, 1, impl, "".join(acc)))
             acc = []
             continue
         m = next(outs)
@@ -551,10 +589,13 @@ def flush(ctx, pending):
         if m is None:
             continue
         m = m.strip()
+        if op in ("write-stmt", "taxlabels"):
+            stage2.append((op, case, extra, impl, "<bad-op>" if m == "bad-op" else (unhex6(m) or "")))
+            continue
         ctx.compared()
-        if op == "write-stmt":
-            if (unhex6(m) or "") != impl:
-                ctx.disagree("write-stmt", case, impl, unhex6(m))
+        if op == "token-texts":
+            if _tok_texts(m) != impl or not m.endswith(("EOF0", "EOF1")):
+                ctx.disagree(op, case, " ".join(impl), m)
         elif op in ("parse", "parse-nexus", "parse-text", "rt"):
             got = canon_model(m, extra)
             if got != impl:
@@ -563,6 +604,19 @@ def flush(ctx, pending):
             if m != impl:
                 ctx.disagree(op, case, impl, m)
     del pending[:]
+    if stage2:
+        lines2 = []
+        for op, case, pu, impl_text, model_text in stage2:
+            lines2.append("tokens %d %s" % (pu, hex6(impl_text)))
+            lines2.append("tokens %d %s" % (pu, hex6(model_text)))
+        outs2 = ctx.ask(lines2)
+        for k, (op, case, pu, impl_text, model_text) in enumerate(stage2):
+            a, b = outs2[2 * k], outs2[2 * k + 1]
+            if a is None or b is None:
+                continue
+            ctx.compared()
+            if _tok_norm(a.strip()) != _tok_norm(b.strip()):
+                ctx.disagree(op, case, impl_text, model_text)
 
 
 # ------------------------------------------------------------------ label-level and token-level correspondence
@@ -644,7 +698,10 @@ def run_parse_text(ctx, dendropy, text, ropts, pending):
     stw = bool(ropts.get("store_tree_weights"))
     try:
         with time_limit(10):
-            tl = dendropy.TreeList.get(data=text, schema="newick", **ropts)
+            kw = dict(ropts)
+            if stw:
+                kw["default_tree_weight"] = DEFAULT_WEIGHT
+            tl = dendropy.TreeList.get(data=text, schema="newick", **kw)
         impl = canon_impl(tl, stw)
     except Timeout:
         impl = "Timeout"
@@ -658,7 +715,7 @@ def run_parse_text(ctx, dendropy, text, ropts, pending):
 
 def is_refusal(dendropy, e):
     from dendropy.utility import error
-    return isinstance(e, (error.DataParseError, ValueError)) and not isinstance(e, (UnicodeError,))
+    return isinstance(e, error.DataParseError)
 
 
 def gen_ropts(rng):
@@ -682,7 +739,8 @@ def gen_text(rng):
         return "".join(rng.choice(STMT_ALPHA) for _ in range(rng.randint(1, 14)))
     # a valid statement with one mutation
     base = rng.choice(["(A,B);", "((A,B)x:1,C:2)r;", "[&R] (A:1,(B:2,C:3):4);\n(a,b);", "(,A);", "(A,);", "(A,,B);", "();", "(,);", "A;",
-                       "(A,(B,));", "((,),(,,));", "('a b',c_d)'in t';", "[&U][&W 1/2] (A,B);", "(A,B)[&R];", ";;(A,B);;;(C,D)", "(A,B); "])
+                       "(A,(B,));", "((,),(,,));", "('a b',c_d)'in t';", "[&U][&W 1/2] (A,B);", "(A,B)[&R];", ";;(A,B);;;(C,D)", "(A,B); ",
+                       "(Abc,dEf);(aBC,DEF)x;", u"(\u00c9a,\u0416b);(\u00e9A,\u0436B);", "(Abc,aBC);", "('a b',A_B);(A_b,c);"])
     i = rng.randint(0, len(base))
     return base[:i] + rng.choice(STMT_ALPHA + [""]) + base[i + rng.choice([0, 0, 1]):]
 
